@@ -563,7 +563,7 @@ func parseRequestHeader(c *Client, r *Request) error {
 	}
 	for k, vs := range c.Headers {
 		if len(r.Headers[k]) == 0 {
-			r.Headers[k] = vs
+			r.Headers[k] = append([]string(nil), vs...) // not the client's slice: request-level appends must not write into it
 		}
 	}
 	return nil
